@@ -667,6 +667,43 @@ func c01RandFlag(r *rng, attr bool) string {
 	return string(b)
 }
 
+// c01Lookalike replaces one letter of s by a Unicode character that looks like it or folds to it.
+func c01Lookalike(r *rng, s string) string {
+	var idx []int
+	for i := 0; i < len(s); i++ {
+		if c := s[i] | 0x20; 'a' <= c && c <= 'z' {
+			idx = append(idx, i)
+		}
+	}
+	if len(idx) == 0 {
+		return s + "\u017f"
+	}
+	// prefer a letter that has a fold-alike
+	i := pick(r, idx)
+	for try := 0; try < 4; try++ {
+		if c := s[i] | 0x20; c == 's' || c == 'k' || c == 'i' {
+			break
+		}
+		i = pick(r, idx)
+	}
+	var rep rune
+	switch c := s[i] | 0x20; {
+	case c == 's' && r.chance(3, 4):
+		rep = pick(r, []rune{0x17f, 0x17f, 0x1e9e, 0xdf})
+	case c == 'k' && r.chance(3, 4):
+		rep = 0x212a
+	case c == 'i' && r.chance(3, 4):
+		rep = pick(r, []rune{0x130, 0x131})
+	default:
+		if s[i] >= 'a' {
+			rep = 0xff41 + rune(s[i]-'a') // fullwidth small
+		} else {
+			rep = 0xff21 + rune(s[i]-'A')
+		}
+	}
+	return s[:i] + string(rep) + s[i+1:]
+}
+
 func c01RandTree(r *rng, depth int) *c01Val {
 	k := r.intn(10)
 	if depth <= 0 && k >= 6 {
@@ -968,6 +1005,111 @@ func genC01(e *emitter, tier string, seed uint64) {
 			}
 		}
 	}
+
+	// 8-bit flags and attributes: a well-known name with one letter replaced by a Unicode look-alike
+	// or fold-alike (long s, Kelvin sign, dotted/dotless i, fullwidth letters), and random 8-bit
+	// keywords. The model does not cover them; the oracle demands that they come back identical up
+	// to ASCII case.
+	add(160*scale, func(r *rng) []caseLine {
+		cfg := pick(r, c01AllCfgs)
+		which := pick(r, []string{"f", "a"})
+		var f string
+		cnt := "flag8:lookalike"
+		if r.chance(3, 4) {
+			base := pick(r, c01KnownFlags)
+			if which == "a" || r.chance(1, 4) {
+				base = pick(r, c01KnownAttrs)
+			}
+			if r.chance(1, 3) {
+				base = c01CaseMix(r, base)
+			}
+			f = c01Lookalike(r, base)
+		} else {
+			cnt = "flag8:random"
+			n := 1 + r.intn(5)
+			var sb strings.Builder
+			if r.chance(1, 2) {
+				sb.WriteString(pick(r, []string{`\`, "$", ""}))
+			}
+			for i := 0; i < n; i++ {
+				switch r.intn(3) {
+				case 0:
+					sb.WriteByte(byte('a' + r.intn(26)))
+				case 1:
+					sb.WriteByte(byte(0xa0 + r.intn(0x60)))
+				default:
+					sb.WriteRune(pick(r, []rune{0x17f, 0x212a, 0x130, 0x131, 0xe9, 0xc9, 0xff33, 0xff53, 0x3b1, 0x391, 0x1e9e, 0xdf}))
+				}
+			}
+			f = sb.String()
+		}
+		if r.chance(1, 4) {
+			hs := []string{hx([]byte(f)), hx([]byte(c01Lookalike(r, pick(r, c01KnownFlags))))}
+			return one(c01Case("flags", cfg.String(), which, strings.Join(hs, ","), hx([]byte(pick(r, c01SepTrailers)))), cnt+"-list")
+		}
+		return one(c01Case("flag", cfg.String(), which, hx([]byte(f)), hx([]byte(pick(r, c01SepTrailers)))), cnt)
+	})
+
+	// decoder-side mailbox names the go-imap encoder never produces: atom / quoted / literal forms of
+	// names with control characters, DEL, 8-bit bytes, well- and ill-formed '&' sequences
+	add(300*scale, func(r *rng) []caseLine {
+		side := pick(r, []string{"c", "s"})
+		var name []byte
+		switch r.intn(6) {
+		case 0:
+			name = []byte(pick(r, []string{"a\x01b", "\x7f", "tab\there", "x\x1f", "a\x7fb", "bell\x07", "\x1b[0m", "a\x08", "plain", "INBOX", "inbox", "iNbOx", "&", "&-", "a&b", "&AOk-", "&AOk", "&AGE-", "&-&-", "&AOkA6Q-", "&AOk-&AOk-", "caf\xc3\xa9", "\xff", "a b", "~", "a/b.c", "&2D3eAA-", "&2D0-", "&AAA-"}))
+		case 1, 2: // printable with a few control characters
+			n := 1 + r.intn(8)
+			name = make([]byte, n)
+			for i := range name {
+				if r.chance(1, 4) {
+					name[i] = pick(r, []byte{1, 2, 7, 8, 9, 11, 12, 14, 27, 31, 127})
+				} else {
+					name[i] = byte('a' + r.intn(26))
+				}
+			}
+		case 3: // around '&'
+			n := 1 + r.intn(8)
+			name = make([]byte, n)
+			for i := range name {
+				name[i] = pick(r, []byte("&-AOkQ,+/ab0="))
+			}
+		case 4:
+			name = []byte(c01RandUTF8(r, 1+r.intn(5)))
+		default:
+			name = c01RandBytes(r, 1+r.intn(6))
+		}
+		var w []byte
+		form := "quoted"
+		switch r.intn(4) {
+		case 0:
+			form = "atom"
+			w = append(w, name...)
+		case 1:
+			form = "literal"
+			w = append(w, fmt.Sprintf("{%d}\r\n", len(name))...)
+			w = append(w, name...)
+		case 2:
+			if side == "s" {
+				form = "literal+"
+				w = append(w, fmt.Sprintf("{%d+}\r\n", len(name))...)
+				w = append(w, name...)
+				break
+			}
+			fallthrough
+		default:
+			w = append(w, '"')
+			for _, ch := range name {
+				if ch == '"' || ch == '\\' {
+					w = append(w, '\\')
+				}
+				w = append(w, ch)
+			}
+			w = append(w, '"')
+		}
+		w = append(w, pick(r, []string{"\r\n", " x\r\n", ")\r\n"})...)
+		return one(c01Case("raw", side, "mailbox", hx(w)), "rawmbox:"+form)
+	})
 
 	// decoder-only cases (tie of the decoder model off the encoder's image): mutated encoder output
 	// and short strings over the wire alphabet, every reader, both sides
